@@ -122,6 +122,8 @@ Section Shape.
       destruct (add_equivalence s x y). inversion H; right; eauto.
     - destruct a as [x|]; [|inversion H; left; reflexivity]. destruct b as [y|]; [|inversion H; left; reflexivity].
       destruct (remove_equivalence s x y). inversion H; right; eauto.
+    - (* Query *) destruct (query_eval true seq s q) as [[b|[x|]| |]|]; inversion H; subst;
+        [left; reflexivity|right; eauto|left; reflexivity|left; reflexivity|left; reflexivity].
   Qed.
 
   (** what an observer sees is what is stored: every listed equivalent variable and every recorded parent is alive *)
@@ -154,3 +156,31 @@ Section Shape.
     destruct (step true seq s o) as [s1 r|] eqn:E; [|discriminate]. eapply IH; [eapply step_clean; eauto|exact H].
   Qed.
 End Shape.
+
+(* ------------------------------------------------------------------------------------------------ queries *)
+
+Section Queries.
+  Variable seq : state -> nat -> nat -> bool.
+
+  (** a query changes nothing, except that a returned object is one more reference held by the caller *)
+  Theorem query_pure : forall s q s' r, step true seq s (Query q) = Ok s' r ->
+    s' = s \/ exists x, r = RObj (Some x) /\ s' = gc (add_handle s x).
+  Proof.
+    intros s q s' r H. cbn [step] in H. destruct (query_ok s q); [|inversion H; left; reflexivity].
+    destruct (query_eval true seq s q) as [[b|[x|]| |]|]; inversion H; subst; try (left; reflexivity).
+    right. eauto.
+  Qed.
+
+  (** a null pointer is equivalent to nothing, in every state: an expired entry never matches *)
+  Theorem null_equivalent_to_nothing : forall s v ind,
+    query_eval true seq s (QHasEquivalentVariable v None ind) = Some (RBool false).
+  Proof. reflexivity. Qed.
+
+  (** what hasEquivalentVariable(w) confirms is alive (in every state of every history, by [run_clean]) *)
+  Theorem has_equivalent_alive : forall s v w, Clean s ->
+    query_eval true seq s (QHasEquivalentVariable v (Some w) false) = Some (RBool true) -> alive s w = true.
+  Proof.
+    intros s v w [C _] H. cbn in H. assert (E : memb w (eqs_of s v) = true) by congruence.
+    apply (C v w). apply memb_true. exact E.
+  Qed.
+End Queries.
